@@ -1679,6 +1679,11 @@ class PE(object):
         return NDArr.from_flat(r.flat(), shp)
     if isinstance(r, NArr) and n in ("tolist", "astype", "numpy"):
       return list(r) if n == "tolist" else r
+    if isinstance(r, NArr) and n in ("max", "min", "sum") and not args \
+        and not kwargs and r and all(
+            isinstance(e, (int, Fraction)) and not isinstance(e, bool)
+            for e in r):
+      return {"max": max, "min": min, "sum": sum}[n](list(r))
     if isinstance(r, list):
       if n == "append":
         r.append(args[0])
